@@ -56,7 +56,20 @@ def gen_case(rng):
         else:
             q = [rng.uniform(lo[i], hi[i]) for i in range(3)]
         qs.append(clampp(q))
-    return dict(kind=kind, s=s, lo=lo, hi=hi, pts=pts, qs=qs)
+    prev = None
+    if rng.random() < 0.3:
+        # the grid object is re-used: built for another box first (different cross-section), then re-dimensioned
+        plo = [lo[i] + s * rng.uniform(-3, 3) for i in range(3)]
+        prev = (plo, [plo[i] + s * rng.uniform(0.5, 9) for i in range(3)])
+    return dict(kind=kind, s=s, lo=lo, hi=hi, pts=pts, qs=qs, prev=prev)
+
+
+def fmt_impl(c):
+    """the line for the implementation: a re-used grid gets the previous box after the box of the case"""
+    if not c.get("prev"):
+        return fmt(c)
+    t = fmt(c).split()
+    return " ".join([t[0] + "R"] + t[1:8] + [hx(x) for x in c["prev"][0]] + [hx(x) for x in c["prev"][1]] + t[8:])
 
 
 def fmt(c):
@@ -183,7 +196,8 @@ def run(ck):
     cases = [parse_case(l) for l in lines]
     while len(cases) < n + ncorp:
         c = gen_case(rng); cases.append(c); lines.append(fmt(c))
-    iout, crashes = vlib.run_lines_resilient([impl], lines)
+    ilines = [fmt_impl(c) if isinstance(c, dict) and c.get("prev") else l for c, l in zip(cases, lines)]
+    iout, crashes = vlib.run_lines_resilient([impl], ilines)
     for bad, info in crashes[:3]:
         ck.report(dict(input=lines[bad], sanitizer=info), oracle="memory_safety", key="grid:memory_safety",
                   what="the implementation aborted (sanitizer/signal) on this grid case: " + info[:300])
